@@ -58,12 +58,16 @@ Definition sort_if {A K : Type} (b : bool) (key : A -> K) (cmp : K -> K -> compa
   if b then isort key cmp l else l.
 
 (** ** modules *)
-Definition mkey (m : module_info) : text * option path := (mi_name m, mi_path m).
+(** the sort key: the module name, then (when the code's comparator has it — [Gen.C35_sort]) the file path *)
+Definition mkey_k (with_path : bool) (m : module_info) : text * option path :=
+  (mi_name m, if with_path then mi_path m else None).
+Definition mkey := mkey_k modules_key_has_path.
 Definition mkey_cmp := pair_cmp text_cmp (opt_cmp path_cmp).
 
-Definition export_modules_f (sorted skip : bool) (ms : list module_info) : list module_info :=
+Definition export_modules_k (with_path sorted skip : bool) (ms : list module_info) : list module_info :=
   filter (fun m => negb (skip && negb (mi_export m)))
-         (filter mi_main (sort_if sorted mkey mkey_cmp ms)).
+         (filter mi_main (sort_if sorted (mkey_k with_path) mkey_cmp ms)).
+Definition export_modules_f := export_modules_k modules_key_has_path.
 
 Definition export_modules : list module_info -> list module_info :=
   export_modules_f modules_sorted modules_skip_no_export.
@@ -71,8 +75,11 @@ Definition export_modules : list module_info -> list module_info :=
 (** ** types *)
 Definition lkey (l : loc) : option path * N := (l_path l, l_start l).
 Definition lkey_cmp := pair_cmp (opt_cmp path_cmp) N.compare.
-Definition tkey (t : type_decl) : text * list (option path * N) :=
-  (td_name t, isort (fun k => k) lkey_cmp (map lkey (td_locs t))).
+(** the sorted declaration sites of a type: they identify the declaration (one site declares one type) *)
+Definition tlocs (t : type_decl) : list (option path * N) := isort (fun k => k) lkey_cmp (map lkey (td_locs t)).
+Definition tkey_k (with_locs : bool) (t : type_decl) : text * list (option path * N) :=
+  (td_name t, if with_locs then tlocs t else []).
+Definition tkey := tkey_k types_key_has_locs.
 Definition tkey_cmp := pair_cmp text_cmp (list_cmp lkey_cmp).
 
 Definition type_is_main (t : type_decl) : bool := existsb l_main (td_locs t).
@@ -98,7 +105,11 @@ Definition export_types_f (sorted locs_sorted : bool) (ts : list type_decl) : li
 Definition export_types := export_types_f types_sorted type_locs_sorted.
 
 (** ** globals *)
-Definition gkey (g : global_decl) : option text * (option path * N) := (g_name g, (g_path g, g_pos g)).
+(** the declaration id (file, position) identifies a global declaration *)
+Definition gid (g : global_decl) : option path * N := (g_path g, g_pos g).
+Definition gkey_k (with_id : bool) (g : global_decl) : option text * (option path * N) :=
+  (g_name g, if with_id then gid g else (None, 0)).
+Definition gkey := gkey_k globals_key_has_decl_id.
 Definition gkey_cmp := pair_cmp (opt_cmp text_cmp) (pair_cmp (opt_cmp path_cmp) N.compare).
 Definition gname_cmp := opt_cmp text_cmp.
 
@@ -115,8 +126,12 @@ Definition export_globals := export_globals_f globals_sorted globals_dedup.
 Definition export (ms : list module_info) (ts : list type_decl) (gs : list global_decl) :=
   (export_modules ms, export_types ts, export_globals gs).
 
-(** well-formed index: the sort keys identify the entries (distinct files have distinct paths,
-    distinct type ids differ in name or locations, distinct declaration ids in file or position) *)
+(** structural facts of the index: distinct files have distinct paths, distinct type
+    declarations have distinct declaration sites, distinct global declarations differ in file or
+    position.  The sort keys identify the entries ([wf_*]) when they contain these components. *)
+Definition modules_distinct (ms : list module_info) : Prop := NoDup (map mi_path ms).
+Definition types_distinct (ts : list type_decl) : Prop := NoDup (map tlocs (filter type_is_main ts)).
+Definition globals_distinct (gs : list global_decl) : Prop := NoDup (map gid (filter g_main gs)).
 Definition wf_modules (ms : list module_info) : Prop := NoDup (map mkey ms).
 Definition wf_types (ts : list type_decl) : Prop := NoDup (map tkey (filter type_is_main ts)).
 Definition wf_globals (gs : list global_decl) : Prop := NoDup (map gkey (filter g_main gs)).
